@@ -9,9 +9,10 @@
 //
 // It type-checks every package with go/types (source importer) to find the
 // sites, rewrites the files in place with go/format, records the site list and
-// adds the simrt requirement to the copy's go.mod.  A construct it cannot model
-// (channel operations, select, sync.Cond, sync.WaitGroup.Wait) makes it refuse
-// with a non-zero exit and the site's position.
+// adds the simrt requirement to the copy's go.mod.  Blocking constructs it cannot
+// model (channel operations, select, sync.Cond) are listed as sites of kind
+// "blocking"; the harness then falls back to real goroutines for the scheduled
+// batches.
 package main
 
 import (
@@ -342,8 +343,14 @@ func (c *pkgCtx) stmts(list []ast.Stmt) []ast.Stmt {
 	return out
 }
 
+// refuse records a blocking construct the cooperative scheduler cannot model
+// (channel operations, select, sync.Cond).  The copy is still produced: such
+// sites are listed with kind "blocking", and the C18 harness then runs its
+// concurrent batches with real goroutines instead of scheduled tasks (a task
+// parked in a channel operation would hold the simulator's turn for ever).
 func (c *pkgCtx) refuse(pos token.Pos, what string) {
-	refusals = append(refusals, fmt.Sprintf("%s: %s", c.fset.Position(pos), what))
+	newSite("blocking", c.fset, pos, c.funcName, what)
+	warnings = append(warnings, fmt.Sprintf("%s: %s cannot be scheduled cooperatively", c.fset.Position(pos), what))
 }
 
 func (c *pkgCtx) stmt(s ast.Stmt) ast.Stmt {
